@@ -95,6 +95,7 @@ class MonthAnalysis:
     pre_events: List[Tuple[str, object, ast.stmt]]  # LOAD/HOUR emitted before the month loop (function level)
     bad_writes: List[ast.stmt] = field(default_factory=list)
     years_key: str = "self.years"
+    flag_name: str = ""  # local list of include-peak flags, as the month loop tests it
 
 
 def _find_month_loop(fn: ast.FunctionDef) -> ast.For:
@@ -110,6 +111,22 @@ def _find_month_loop(fn: ast.FunctionDef) -> ast.For:
     if len(outer) != 1:
         raise AnalysisError(f"{FUNC}: expected exactly one month loop emitting load/hour pairs, found {len(outer)}")
     return outer[0]
+
+
+def flag_list_name(loop: ast.For, iv: str) -> str:
+    """the local list the month loop tests as  if <name>[<loop var>] ...  (the include-peak flags)"""
+    names = set()
+    for n in ast.walk(loop):
+        if isinstance(n, ast.If):
+            tests = n.test.values if isinstance(n.test, ast.BoolOp) else [n.test]
+            for t in tests:
+                if isinstance(t, ast.UnaryOp) and isinstance(t.op, ast.Not):
+                    t = t.operand
+                if isinstance(t, ast.Subscript) and isinstance(t.value, ast.Name) and isinstance(t.slice, ast.Name) and t.slice.id == iv:
+                    names.add(t.value.id)
+    if len(names) != 1:
+        raise AnalysisError(f"{FUNC}: the month loop does not test exactly one local flag list by its loop variable (found {sorted(names)})")
+    return next(iter(names))
 
 
 def analyse(prog: Program, loop_bound: int = 1) -> MonthAnalysis:
@@ -139,7 +156,8 @@ def analyse(prog: Program, loop_bound: int = 1) -> MonthAnalysis:
     finals = eng.run_block(loop.body, [st0])
     I = Rat.atom(iv)
     A = {k: Rat.atom(f"{v}[{I.key()}]") for k, v in SLOTS.items()}
-    ipf_key = f"ipf[{I.key()}]"
+    flag_name = flag_list_name(loop, iv)
+    ipf_key = f"{flag_name}[{I.key()}]"
     paths: List[MonthPath] = []
     for st in finals:
         if st.exit is not None and st.exit[0] not in ("continue",):
@@ -186,7 +204,9 @@ def analyse(prog: Program, loop_bound: int = 1) -> MonthAnalysis:
             pre.append((c[0], eng2.eval(c[1], st), s))
         elif isinstance(s, ast.Assign):
             eng2._s_Assign(s, st)
-    return MonthAnalysis(fi, loop, iv, paths, A, pre, hooks.bad_writes)
+    ma = MonthAnalysis(fi, loop, iv, paths, A, pre, hooks.bad_writes)
+    ma.flag_name = flag_name
+    return ma
 
 
 def _sign_fact(st: State, x: Rat) -> Optional[bool]:
